@@ -216,19 +216,24 @@ def gen_wait_spec(rng: random.Random) -> dict:
     """steps suspended in wait_for_event; responses (duplicates, non-matching, early/late) arrive from outside"""
     reqk = rng.choice([None, 1, 2])
     timeout = rng.choice([None, 5, 20])
-    waiter = {"name": "s02", "accepts": [5], "nw": rng.randint(1, 2), "retry": None,
-              "script": ([["gate"]] if rng.random() < 0.3 else []) +
-                        [["wait", rng.choice([3, 11]), reqk, timeout, rng.choice(["w01", "w02"]), rng.choice([None, 2]),
-                          rng.choice(["swallow", "raise"])], ["ret", rng.choice(["6", "stop", "none"])]]}
+    wty = rng.choice([3, 11])
+    # sometimes the waiting step also accepts the awaited type as a plain input (the event must then come
+    # as the wait result only), with few workers kept busy so that the replay is queued
+    also = rng.random() < 0.35
+    waiter = {"name": "s02", "accepts": [5, wty] if also else [5], "nw": rng.randint(1, 2), "retry": None,
+              "script": ([["gate"]] if (also or rng.random() < 0.3) else []) +
+                        [["wait", wty, reqk, timeout, rng.choice(["per", "per", "w01"] if also else ["w01", "w02", "per"]), rng.choice([None, 2]),
+                          rng.choice(["swallow", "raise"])]] + ([["gate"]] if also and rng.random() < 0.5 else []) +
+                        [["ret", rng.choice(["6", "stop", "none"])]]}
     other = {"name": "s04", "accepts": [6, 3] if rng.random() < 0.3 else [6], "nw": 1, "retry": None,
              "script": [["ret", rng.choice(["stop", "none"])]]}
     start = {"name": "s00", "accepts": [0], "nw": 1, "retry": None,
-             "script": [["send", 5, rng.choice([None, "s02"]), rng.choice([None, 1])] for _ in range(rng.randint(1, 2))] + [["ret", "none"]]}
+             "script": [["send", 5, rng.choice([None, "s02"]), rng.choice([None, 1])] for _ in range(rng.randint(1, 3 if also else 2))] + [["ret", "none"]]}
     steps = [start, waiter, other]
     rng.shuffle(steps)
     ext = []
     for _ in range(rng.randint(0, 4)):
-        ext.append({"op": "send", "ty": rng.choice([3, 3, 11, 11, 6]), "k": rng.choice([None, 1, 2]),
+        ext.append({"op": "send", "ty": rng.choice([wty, wty, 3, 11, 6]), "k": rng.choice([None, 1, 2]),
                     "step": rng.choice([None, None, None, "s02", "s04"]), "after_quiet": rng.randint(0, 4)})
     if rng.random() < 0.2:
         ext.append({"op": "snapshot", "after_quiet": rng.randint(0, 4)})
